@@ -50,4 +50,11 @@ if a in s:
     i, j = s.index(a), s.index(b)
     s = s[:i + len(a)] + "\n" + btable + s[j:]
     open(p, "w").write(s)
+# coverage summary (coverage/SUMMARY.md written by bin/covreport)
+cp = os.path.join(V, "coverage", "SUMMARY.md")
+a, b = "<!-- COVTABLE BEGIN -->", "<!-- COVTABLE END -->"
+if os.path.exists(cp) and a in s:
+    i, j = s.index(a), s.index(b)
+    s = s[:i + len(a)] + "\n" + open(cp).read() + s[j:]
+    open(p, "w").write(s)
 print(len(rows), "rows;", len(brows), "benign rows")
